@@ -1,5 +1,6 @@
 //! Shared machinery of the grin runtime-monitoring harness.
 pub mod ctx;
+pub mod forktree;
 pub mod ledger;
 pub mod monitor;
 pub mod prng;
